@@ -7,6 +7,7 @@ import Librfn.Driver.Pack
 import Librfn.Driver.Wav
 import Librfn.Driver.Messageq
 import Librfn.Driver.MessageqConc
+import Librfn.Driver.Bintree
 
 def main (args : List String) : IO UInt32 :=
   match args with
@@ -19,4 +20,5 @@ def main (args : List String) : IO UInt32 :=
   | "wav" :: rest => Librfn.Driver.Wav.main rest
   | "messageq" :: rest => Librfn.Driver.Messageq.main rest
   | "messageq-conc" :: rest => Librfn.Driver.MessageqConc.main rest
+  | "bintree" :: rest => Librfn.Driver.Bintree.main rest
   | _ => do IO.eprintln "usage: librfn_model <engine> [args]"; return 2
